@@ -28,10 +28,12 @@ func (q QualifierIO) String() string {
 	case QuotedQualifier:
 		return fmt.Sprintf("/%s=\"%s\"", name, escapeQuotes(value))
 	case LiteralQualifier:
-		if strings.HasPrefix(value, "\"") && !searchString(name, builtinQualifierNames) {
+		if (strings.HasPrefix(value, "\"") || strings.Contains(value, "\n")) && !searchString(name, builtinQualifierNames) {
 			// The name was only learnt as literal from some record read
 			// earlier; a reader that has not learnt it would take the leading
-			// double quote of this value for the start of a quoted value.
+			// double quote of this value for the start of a quoted value, and
+			// any reader takes a later line that starts with a slash for the
+			// next qualifier.
 			return fmt.Sprintf("/%s=\"%s\"", name, escapeQuotes(value))
 		}
 		return fmt.Sprintf("/%s=%s", name, value)
